@@ -77,10 +77,10 @@ def build_case(ch):
         ref.funcs[k] = Func(ref.funcs[k].type, [], [('i32.const', 4242)])   # ... except one
     nested = ch.below(3) == 1
     outdir = 'out/sub' if nested else 'out'
-    form = ch.below(6)
+    form = ch.below(8)        # 6, 7: the output path names the output DIRECTORY with trailing separators ("../out/", "../out//")
     base = ch.pick(['m.c', 'm.c', 'out.c', 'noext', 'a.b.c', 'x.cc', 'module.c'])
     decoys = {}
-    for d in ('cwd', 'in', 'out', 'out/sub', 'other'):
+    for d in ('cwd', 'in', 'out', 'out/sub', 'other', '.'):
         names = []
         for _ in range(ch.below(7)):
             names.append((ch.pick(NEAR_MISSES), 'file'))
@@ -104,8 +104,13 @@ def build_case(ch):
         opts.append('-g')
     if ref is not None:
         opts += ['-r', '@REF@']
+    # translator build configurations: system vs. bundled dirname/basename, getopt, strdup; with / without worker threads
+    variant = ch.pick(('plain', 'plain', 'plain', 'nolibgen', 'nolibgen', 'nogetopt', 'nostrdup', 'nopthread'))
+    if variant == 'nopthread' and '-t' in opts:
+        i = opts.index('-t')
+        del opts[i:i + 2]
     return {'module': wasm.encode(m), 'ref': wasm.encode(ref) if ref is not None else None, 'outdir': outdir, 'form': form,
-            'base': base, 'decoys': decoys, 'opts': opts, 'inabs': ch.below(2) == 1}
+            'base': base, 'decoys': decoys, 'opts': opts, 'inabs': ch.below(2) == 1, 'variant': variant}
 
 
 def materialise(case, root):
@@ -140,6 +145,10 @@ def materialise(case, root):
         outpath = os.path.join('..', 'out', 'sub', '..', case['base']) if outdir == 'out' else os.path.join('..', 'out', 'sub', '.', case['base'])
     elif form == 4:
         outpath = os.path.join(rel_from_cwd, '.', case['base'])
+    elif form == 6:
+        outpath = rel_from_cwd + '/'
+    elif form == 7:
+        outpath = os.path.join(root, outdir) + '//'
     else:
         outpath = os.path.join(root, 'cwd', rel_from_cwd, case['base'])
     inpath = os.path.join(root, 'in', 'm.wasm') if case['inabs'] else os.path.join('..', 'in', 'm.wasm')
@@ -148,12 +157,22 @@ def materialise(case, root):
     return opts + [inpath, outpath], outpath
 
 
-def check_case(case, variant='plain'):
+def posix_split(path):
+    """dirname / basename as POSIX defines them (trailing separators do not count)"""
+    p = path.rstrip('/') or '/'
+    if '/' not in p:
+        return '.', p
+    d, b = p.rsplit('/', 1)
+    return (d.rstrip('/') or '/'), b
+
+
+def check_case(case, variant=None):
     """returns (problems list, info)"""
     root = cexec.new_dir('fs')
     try:
         argv, outpath = materialise(case, root)
         before = snapshot(root)
+        variant = variant or case.get('variant', 'plain')
         exe = cexec.w2c2_binary(variant)
         env = dict(os.environ)
         env.update(cexec.ASAN_ENV)
@@ -161,10 +180,13 @@ def check_case(case, variant='plain'):
                            timeout=120, env=env)
         after = snapshot(root)
         problems = []
-        outdir = case['outdir']
-        base = case['base']
+        # "the directory of the output path" and the output file's name, as POSIX dirname / basename give them
+        dpart, base = posix_split(outpath)
+        outdir = os.path.relpath(os.path.realpath(os.path.join(root, 'cwd', dpart)), os.path.realpath(root))
+        outdir = '' if outdir == '.' else outdir
+        names_a_directory = os.path.isdir(os.path.join(root, outdir, base))
         header = (base.rsplit('.', 1)[0] if '.' in base else base) + '.h'
-        if r.returncode != 0:
+        if r.returncode != 0 and not names_a_directory:
             problems.append('exit status %r: %s' % (r.returncode, r.stderr.decode(errors='replace')[-300:]))
         created = [p for p in after if p not in before]
         deleted = [p for p in before if p not in after]
@@ -194,7 +216,7 @@ def check_case(case, variant='plain'):
         for p in ('in/m.wasm', 'in/ref.wasm', 'target/precious.txt'):
             if p in before and after.get(p) != before[p]:
                 problems.append('input or symlink target changed: %s' % p)
-        if r.returncode == 0:
+        if r.returncode == 0 and not names_a_directory:
             for n in (base, header):
                 if os.path.join(outdir, n) not in after:
                     problems.append('expected output %s missing in %s' % (n, outdir))
@@ -244,6 +266,10 @@ def task(wid, seed, params):
             classes.append('gnu-ld')
         if case['outdir'] != 'out':
             classes.append('nested_output_dir')
+        if case.get('variant', 'plain') != 'plain':
+            classes.append('translator_build_' + case['variant'])
+        if case['form'] in (6, 7):
+            classes.append('output_path_with_trailing_separator')
         if case['ref'] is not None:
             classes.append('reference_module')
         for c in classes:
